@@ -5,4 +5,7 @@ ArgsMC == [haigh |-> {"unnamed3", "named12", "named567"}, matrix |-> {"s0", "s1"
 (* extension (bin/vcheck ext): a kept DamageCalculatorPRAM asked for its lifetime and for N_max_bearable(P_A) in any order *)
 ObjectsCalc == [pram |-> {"base1", "base3"}]
 ArgsCalc == [pram |-> {"lifetime", "N50", "N1e5"}]
+(* C15: a kept FailureProbability object; calls pf_simple_load / pf_norm_load / pf_norm_load with an array of scatters (raises) / pf_arbitrary_load *)
+ObjectsFP == [failprob |-> {"s100", "s300"}]
+ArgsFP == [failprob |-> {"simple", "norm", "bad", "arbitrary"}]
 =============================================================================
